@@ -149,6 +149,30 @@ class Inventory(asset.Inventory):
         self._content[descriptor.descriptor.name] = descriptor.descriptor
 
 
+def slow_posix_inventory(path: str):
+    """forml's own file-system inventory (descriptors are *modules* loaded on first use) with the same pause knobs."""
+    from forml.provider.inventory import posix as posixinv  # pylint: disable=import-outside-toplevel
+
+    class SlowPosix(posixinv.Inventory):
+        """Posix inventory sleeping inside list/get."""
+
+        pause_list = 0.0
+        pause_get = 0.0
+
+        def list(self):
+            names = tuple(super().list())
+            if self.pause_list > 0:
+                time.sleep(self.pause_list)
+            return names
+
+        def get(self, application: str):
+            if self.pause_get > 0:
+                time.sleep(self.pause_get)
+            return super().get(application)
+
+    return SlowPosix(path)
+
+
 SOURCE_MODULE = '''
 from forml import project
 from vf.proj import serve_actors as sa
